@@ -3,6 +3,7 @@ import NutsModel.C08.State
 import NutsModel.C08.Codec
 import NutsModel.C08.Drop
 import NutsModel.C08.Metric
+import NutsModel.C08.Phases
 import NutsModel.Facts.C08
 open Lean Nuts.Drv Nuts.C08 Nuts
 
@@ -185,9 +186,25 @@ def step (st : St) (j : Json) : St × List String :=
   | "mstart" =>
     let st := { st with metric := metricAfterStart st.metric st.s.disk.count }
     (st, [s!"mstart metric={st.metric}"])
-  | "add" | "dupadd" =>
-    -- dupadd: a second call adds the same transaction between the first call's read and write phase; the first call's
-    -- write function then finds it present — one Add in the model (`txAdded` stays false in the outer call)
+  | "dupadd" =>
+    -- a second call adds the same transaction between the first call's read and write transaction: run as that very
+    -- schedule of the two-transaction model (NutsModel/C08/Phases.lean): outer enter, inner enter + finish, outer finish
+    let tx := parseTx (jObj j "tx")
+    let payload := match jStr j "payload" with | "ok" => some true | "bad" => some false | _ => none
+    let opt : AddOpts := { payload := payload }
+    let c0 : Conc NB := { m := { s := st.s, metric := st.metric }, pending := [] }
+    let (c1, r1) := c0.enter tx
+    let (c2, r2) := c1.enter tx
+    let (c3, rin) : Conc NB × Res Unit := match r2 with
+      | some r => (c2, r)
+      | none => let f := c2.finish cfg (c2.pending.length - 1) opt; (f.1, f.2.getD (.panic "no-pending-call"))
+    let (c4, rout) : Conc NB × Res Unit := match r1 with
+      | some r => (c3, r)
+      | none => let f := c3.finish cfg 0 opt; (f.1, f.2.getD (.panic "no-pending-call"))
+    let tag := if resStr rin == resStr rout then resStr rout else "dup:" ++ resStr rin ++ "/" ++ resStr rout
+    ({ st with s := c4.m.s, metric := c4.m.metric },
+     [if jBool j "quiet" then tag else tag ++ " | " ++ observe c4.m.s j])
+  | "add" =>
     let tx := parseTx (jObj j "tx")
     let payload := match jStr j "payload" with | "ok" => some true | "bad" => some false | _ => none
     let r := add cfg st.s tx { payload := payload, commitFails := jStr j "fail" != "none" && jStr j "fail" != "",
